@@ -143,6 +143,22 @@ impl Link {
         self.unlinked.clear();
     }
 
+    /// True when the code or data pool has no room left for a direct statement.
+    pub fn is_full(&self) -> bool {
+        self.ops.is_full() || self.data.is_full()
+    }
+
+    /// Drops the code and data of a program that can not be run. Every line then
+    /// resolves to address 0 so entering the program still reports its errors.
+    pub fn discard(&mut self) {
+        self.ops.clear();
+        self.data.clear();
+        self.data_pos = 0;
+        for addrs in self.symbols.values_mut() {
+            *addrs = (0, 0);
+        }
+    }
+
     pub fn next_symbol(&mut self) -> Symbol {
         self.current_symbol -= 1;
         self.current_symbol
